@@ -202,7 +202,7 @@ fn random_parents(seed: u64, rounds: usize, rep: &mut Report) {
         let len = if r % 50 == 0 { *g.pick(&[31usize, 32, 33, 63, 64, 65, 100, 127, 128, 129, 255, 256, 257, 1000, 2049]) } else { g.usize_below(12) };
         let a: Vec<bool> = (0..len).map(|_| g.chance(1, 2)).collect();
         let b: Vec<bool> = (0..len).map(|_| g.chance(1, 2)).collect();
-        let mut rng = TraceRng::new(mix(seed, r as u64));
+        let mut rng = TraceRng::stream(mix(seed, r as u64));
         for xo in [Xo::TwoPoint, Xo::Uniform] {
             rep.eval();
             let pa = Bitstring { bits: a.clone() };
@@ -235,7 +235,7 @@ fn different_lengths(rep: &mut Report) {
             if l1 == l2 {
                 continue;
             }
-            let mut rng = TraceRng::new((l1 * 10 + l2) as u64);
+            let mut rng = TraceRng::stream((l1 * 10 + l2) as u64);
             let before = rng.fingerprint();
             let mut outs: Vec<(&'static str, Result<Result<(), String>, vh_core::PanicInfo>)> = Vec::new();
             outs.push(("TwoPoint/[Vec;2]", catch(|| TwoPointXo.recombine([tagged(0, l1), tagged(1, l2)], &mut rng).map(|_| ()).map_err(|e| format!("{e:?}")))));
